@@ -67,12 +67,20 @@ func C09(tier string) int {
 	if res.Thorough() {
 		bound = 2
 	}
-	res.Rule = fmt.Sprintf("for each of %d scenarios (every default side-effect path of both protocols, delivery, forwarding, GET endpoints; each POST scenario also with application hooks that log / fail after the default effect / call back into the library, and again started from the state an earlier request of the same kind left behind; a generated addressing family with forwarding filters that work in place); plus every corpus request with one body node removed, emptied or replaced by a value of another legal shape ([], object without id, typeless object, unreachable IRI, href-only Link / Mention, Link with id and href, two-element list), fault-free and under every single fault; plus every ordered pair of POST scenarios as a fault-free two-request history on one application and one Actor: the fault-free run and every run with <= %d of its fallible seam calls (Database incl. Lock/Unlock, Transport, NewTransport, callbacks) failing, enumerated depth-first by choice list; non-trivial = a run in which the library took at least one lock; distinct = (scenario, choice list)", len(corpus), bound)
+	res.Rule = fmt.Sprintf("for each of %d scenarios (every default side-effect path of both protocols, delivery, forwarding, GET endpoints; each POST scenario also with application hooks that log / fail after the default effect / call back into the library, and again started from the state an earlier request of the same kind left behind; a generated addressing family with forwarding filters that work in place); plus every corpus request with one body node removed, emptied or replaced by a value of another legal shape ([], object without id, typeless object, unreachable IRI, href-only Link / Mention, Link with id and href, two-element list), fault-free and under every single fault; plus every ordered pair of POST scenarios as a fault-free two-request history on one application and one Actor: the fault-free run and every run with <= %d (for the base corpus without hook variants always <= 2) of its fallible seam calls (Database incl. Lock/Unlock, Transport, NewTransport, callbacks) failing, enumerated depth-first by choice list; non-trivial = a run in which the library took at least one lock; distinct = (scenario, choice list)", len(corpus), bound)
 	res.Assumptions = []string{"an erroring Unlock still frees the lock, an erroring Lock does not acquire it",
 		"locks are counted, not blocking (one request cannot hang the check)", "fault bound as stated"}
 	mk := &minimalKeys{}
-	for b := 0; b <= bound; b++ {
-		for _, sc := range corpus {
+	// quick tier: the base corpus (every default side-effect path once, no hook variants) also with every PAIR of
+	// simultaneous faults - a second fault on the error path of the first is where an unlock goes missing
+	base := Corpus()
+	baseBound := 2
+	for b := 0; b <= bound || b <= baseBound; b++ {
+		list := corpus
+		if b > bound {
+			list = base
+		}
+		for _, sc := range list {
 			sc := sc
 			e := &mc.Explorer{}
 			e.Budget = [3]int{0, b, 0}
